@@ -30,6 +30,8 @@ FIXED = {
     "C43:new-word-inserted-at-end-of-whitespace": "fc750b9",
     "C18:peach-multi-reader-gone": "9d85244",
     "C18:run-parallel-reader-gone": "f65ff11",
+    "C17:str-repeat-overflow-wraps": "a2e5b92",
+    "C17:flag-name-panics": "a2537fc",
     "C36:del-in-link-destination-written-bare": "562dd02",
     "C18:only-values-stops-draining": "fcd24e6",
     "C20:run-parallel-go-fn-error-panics": "58ec5ef",
